@@ -164,8 +164,10 @@ Qed.
 (* ---------- transfer of values ---------- *)
 Section Transfer.
 Variables (g g' : sgraph) (s : asg) (keep : nat -> Prop).
-Hypothesis Hlabel : forall x, keep x -> sg_label g' x = sg_label g x.
-Hypothesis Hkids : forall x bs, keep x ->
+(* a kept node keeps its label, or becomes a true node where its value was true anyway *)
+Hypothesis Hlabel : forall x, keep x -> sg_label g' x = sg_label g x \/
+  (sg_label g' x = Some GTrue /\ forall b, GV g s x b -> b = true).
+Hypothesis Hkids : forall x bs, keep x -> sg_label g' x = sg_label g x ->
   (sg_label g x = Some GAnd \/ sg_label g x = Some GOr) ->
   Forall2 (fun c b => GV g s c b /\ (keep c -> GV g' s c b)) (sg_out g x) bs ->
   exists bs', Forall2 (GV g' s) (sg_out g' x) bs' /\
@@ -174,18 +176,20 @@ Hypothesis Hkids : forall x bs, keep x ->
 
 Lemma gv_transfer_fuel : forall f x b, keep x -> gval f g s x = Some b -> GV g' s x b.
 Proof.
-  induction f as [|f IH]; intros x b Hk H; [discriminate|]. cbn [gval] in H.
-  pose proof (Hlabel x Hk) as Hl'.
+  induction f as [|f IH]; intros x b Hk H; [discriminate|].
+  destruct (Hlabel x Hk) as [Hl'|[Hl' Htrue]];
+    [|rewrite (Htrue b (ex_intro _ (S f) H)); now apply GV_true].
+  cbn [gval] in H.
   destruct (sg_label g x) as [[l| | | |]|] eqn:Hl; try discriminate.
   - injection H as <-. now apply GV_lit.
   - destruct (map_opt _ _) as [bs|] eqn:E; [|discriminate]. injection H as <-.
     apply map_opt_Forall2_iff in E.
-    destruct (Hkids x bs Hk (or_introl Hl)) as [bs' [H1 [H2 _]]].
+    destruct (Hkids x bs Hk (eq_trans Hl' (eq_sym Hl)) (or_introl Hl)) as [bs' [H1 [H2 _]]].
     { eapply Forall2_impl; [|exact E]. intros c bc Hc. split; [now exists f|]. intros Hkc. now apply IH. }
     rewrite <- (H2 Hl). now apply GV_and.
   - destruct (map_opt _ _) as [bs|] eqn:E; [|discriminate]. injection H as <-.
     apply map_opt_Forall2_iff in E.
-    destruct (Hkids x bs Hk (or_intror Hl)) as [bs' [H1 [_ H2]]].
+    destruct (Hkids x bs Hk (eq_trans Hl' (eq_sym Hl)) (or_intror Hl)) as [bs' [H1 [_ H2]]].
     { eapply Forall2_impl; [|exact E]. intros c bc Hc. split; [now exists f|]. intros Hkc. now apply IH. }
     rewrite <- (H2 Hl). now apply GV_or.
   - injection H as <-. now apply GV_true.
